@@ -32,7 +32,7 @@ EXTENDS IndexFmt, Json, IOUtils
 Traces == ndJsonDeserialize(IOEnv.TRACE_FILE)
 
 VARIABLE tid
-tvars == <<vars, tid>>
+tvars == <<vars, tid>>      \* (mem and eds of IndexFmt stay empty here)
 
 Range(s) == { s[i] : i \in DOMAIN s }
 SameSet(a, b) == Len(a) = Len(b) /\ Range(a) = Range(b)
@@ -68,12 +68,29 @@ Judge(t) ==
               If(t.obs = Runs(EntryRegion(t.hv, es) \o ExtsFields(SelectSeq(t.exts, Keeps), 1)), "Layout"),
               <<>> >>
 
-TraceInit == tid \in 1..Len(Traces) /\ c = <<>> /\ ph = 0 /\ out = <<>>
+\* kind "hist": the implementation read a file (ents per git's listing, exts per projection, header
+\* version hv), the harness applied t.edits to the entry objects that were read (re-slotting them),
+\* and the implementation wrote the result: expected entries = SlotView of the edited index.
+JudgeHist(t) ==
+    LET m0 == MemOf(Range(t.ents)) IN
+    IF ~AllOK(m0, t.edits, 1) THEN << <<>>, <<>>, <<"BadEdit">> >>
+    ELSE IF ~t.wrote THEN << <<"WriteRaises">>, <<>>, <<>> >>
+    ELSE LET m   == ApplyAll(m0, t.edits, 1)
+             es  == Sorted(SlotView(m))
+             exp == MapNorm(es)
+         IN  << If(t.rbok /\ SameSet(t.rb, exp), "RoundTrip")
+                \o If(t.glok /\ t.gl = exp, "GitLists")
+                \o If(t.pok => (Ordered(t.okeys) /\ Len(t.okeys) = Len(es)), "Order")
+                \o If(t.trailer = "sha1" /\ t.fsckok, "Checksum"),
+                If(t.obs = Runs(EntryRegion(EffVersion(t.hv, SlotView(m)), es) \o ExtsFields(SelectSeq(t.exts, Keeps), 1)), "Layout"),
+                <<>> >>
+
+TraceInit == tid \in 1..Len(Traces) /\ c = <<>> /\ ph = 0 /\ out = <<>> /\ mem = {} /\ eds = <<>>
 TraceNext ==
     /\ ph = 0
     /\ ph' = 1
-    /\ out' = Judge(Traces[tid])
+    /\ out' = IF Traces[tid].kind = "hist" THEN JudgeHist(Traces[tid]) ELSE Judge(Traces[tid])
     /\ PrintT(<<"VERDICT", Traces[tid].tid>> \o out')
-    /\ UNCHANGED <<c, tid>>
+    /\ UNCHANGED <<c, tid, mem, eds>>
 TraceSpec == TraceInit /\ [][TraceNext]_tvars
 =============================================================================
